@@ -68,6 +68,7 @@ func (p Person) Lvl() Level                 { return p.lvl }
 func (p Person) Score() (int, error)        { return p.age * 2, nil }
 func (p Person) Label(prefix string) string { return prefix + p.name }
 func (p Person) secret() string             { return "s" }
+func (p Person) Kod() Code                  { return Code(p.age) }
 
 func Itoa(i int) string             { return strconv.Itoa(i) }
 func Atoi(s string) (int, error)    { return strconv.Atoi(s) }
@@ -140,7 +141,8 @@ type Kind int
 
 func DotConv(i int) string { return "dot" + strconv.Itoa(i) }
 func DotConvErr(i int) (string, error) {
-	if i < 0 {
+	if i == -1<<62 { // never drawn by the execution driver: this function is not instrumented
+
 		return "", strconv.ErrRange
 	}
 	return "dot" + strconv.Itoa(i), nil
@@ -258,6 +260,10 @@ var pairCatalogue = []FieldPair{
 	{"slice", "[]string", "[]ext.Status", "field"},
 	{"slice", "[]MyInt", "[]int", "field"},
 	{"slice", "[][]int", "[][]int", "field"},
+	{"slice", "[]*Leaf", "[]Leaf", "field"}, // one level of indirection apart: neither assignable nor convertible
+	{"slice", "[]Leaf", "[]*Leaf", "field"},
+	{"slice", "StrList2", "StrList", "field"}, // two defined slice types over one element type: only :typecast fits
+	{"slice", "IntList", "IntList", "field"},
 	{"slice", "[]map[string]int", "[]map[string]int", "field"},
 	{"slice", "[]Inner2", "[]Inner1", "field"},
 	{"slice", "[]error", "[]error", "field"},
@@ -278,6 +284,8 @@ var pairCatalogue = []FieldPair{
 	{"getter", "[]string", "[]string", "getter"},
 	{"getter", "Inner2", "Inner1", "getter"},
 	{"getter", "string", "ext.Code", "getter"},
+	{"getter", "string", "ext.Code", "ptrgetter"},
+	{"getter", "string", "LocalCode", "getter"}, // String() on the pointer receiver: a getter's result is not addressable
 	{"missing", "int", "", "none"},
 	{"missing", "string", "", "none"},
 	{"missing", "Leaf", "", "none"},
@@ -365,6 +373,14 @@ type LocalPod struct {
 }
 type Label string
 type Coded int
+
+type StrList []string
+type StrList2 []string
+
+// LocalCode has String() on its pointer receiver only.
+type LocalCode int
+
+func (c *LocalCode) String() string { return "lc:" + strconv.Itoa(int(*c)) }
 
 func (c Coded) String() Label { return Label("coded:" + strconv.Itoa(int(c))) }
 
@@ -479,6 +495,7 @@ type Options struct {
 	Clones          float64 // probability of a method converting a struct type to itself
 	CaseBias        bool    // prefer :case:off and explicit notations whose destination differs from a field only in case (C19)
 	HiddenBias      bool    // prefer pairs over struct types with members the generated package cannot see, and skip patterns fitting them (C05)
+	SiblingUse      bool    // a sibling file refers to a function that only exists once it is generated
 	UnreturnedErr   float64 // probability of a method without error result whose notations name an error-returning source (must be rejected)
 }
 
@@ -693,6 +710,29 @@ func (g *genState) genMethod(idx int) Method {
 		m.SrcName, m.DstName = g.pick([]string{"src", "s", "in", "from", "e", "i"}), g.pick([]string{"dst", "d", "out", "to", "res"})
 	}
 	m.RetErr = g.rng.Intn(3) == 0 || g.opt.ErrorBias
+	if g.rng.Intn(10) == 0 {
+		// operand names at the edge: blank names, and names the generated function declares itself
+		// (err, the default dst / argN): the tool must rename or reject, never redeclare
+		switch k := g.rng.Intn(5); {
+		case k == 0:
+			m.SrcName, m.DstName = "_", g.pick([]string{"_", "out", ""}) // not dst/src: the blank operand gets one of them as its default name
+			m.Features = append(m.Features, "blank-operand-name")
+		case g.opt.WellFormed:
+			// colliding names are rightly rejected: not part of the well-formed stream
+		case k == 1:
+			m.SrcName, m.DstName = "err", g.pick([]string{"dst", "", "out"})
+			m.Features = append(m.Features, "operand-named-err")
+		case k == 2:
+			m.SrcName, m.DstName = "dst", ""
+			m.Features = append(m.Features, "source-named-dst")
+		case k == 3:
+			m.SrcName, m.DstName = "", g.pick([]string{"arg0", "src", "err"})
+			m.Features = append(m.Features, "result-named-like-a-default")
+		default:
+			m.SrcName, m.DstName = g.pick([]string{"a", "err"}), "err2"
+			m.Features = append(m.Features, "operand-named-err")
+		}
+	}
 	if g.opt.Styles && g.rng.Intn(3) == 0 {
 		n := 1 + g.rng.Intn(3)
 		argTypes := []string{"int", "string", "*Leaf", "ext.Status", "[]string", "ext.Person", "Inner1", "*Lookup", "v2.Kind", "v2.Pod"}
@@ -728,6 +768,13 @@ func (g *genState) genMethod(idx int) Method {
 			m.Notations = append(m.Notations, ":match name")
 		}
 	}
+	for _, f := range fields {
+		if f.SrcGetter && (f.Pair.Src == "ext.Code" || f.Pair.Src == "LocalCode") && g.rng.Intn(2) == 0 {
+			m.Notations = append(m.Notations, ":getter", ":stringer")
+			m.Features = append(m.Features, "pointer-receiver-stringer-on-getter-result")
+			break
+		}
+	}
 	style := "return"
 	reversed := false
 	if g.opt.Styles {
@@ -739,7 +786,7 @@ func (g *genState) genMethod(idx int) Method {
 			m.Notations = append(m.Notations, ":style return")
 		}
 		if g.rng.Intn(5) == 0 {
-			m.Notations = append(m.Notations, ":recv "+g.pick([]string{"r", "self", "x", "e"}))
+			m.Notations = append(m.Notations, ":recv "+g.pick(recvNames(g.opt.WellFormed)))
 			m.Features = append(m.Features, "recv")
 		}
 		if style == "arg" && len(m.Args) == 0 && g.rng.Intn(4) == 0 {
@@ -812,7 +859,7 @@ func (g *genState) genMethod(idx int) Method {
 			m.Features = append(m.Features, "skip-re")
 		case 2:
 			srcs := []string{"SpareInt", "SpareStr", "Calc()", "Risky()", "Nest.A", "NestV.B", "Who.Name()", "Who.Nick", "WhoP.Age()", "NestV.L.W", "Nope", "Who.secret()", "PtrCalc()", "WithArg()", "NestV.C.String()", "Who.Score()",
-				"Who.name", "Who.age", "WhoP.lvl", "Who.lvl.String()"} // the last four: unexported members of an imported type
+				"Who.name", "Who.age", "WhoP.lvl", "Who.lvl.String()", "Who.Kod()", "WhoP.Kod()"} // the last four: unexported members of an imported type
 			if g.rng.Intn(5) == 0 {
 				// an identity :map pins the source to exactly this member, whatever the matching rule
 				id := f.SrcName
@@ -920,10 +967,20 @@ func (g *genState) genMethod(idx int) Method {
 			}
 		}
 		m.Notations = keep
-		switch g.rng.Intn(3) {
-		case 0:
+		nested := ""
+		for _, nf := range fields {
+			if nf.Pair.Dst == "Inner2" && nf.Pair.Src == "Inner1" && nf.Pair.Class == "nested" {
+				nested = nf.Name
+			}
+		}
+		switch k := g.rng.Intn(3); {
+		case nested != "" && g.rng.Intn(2) == 0:
+			// the error source sits on a member of a member-wise copied struct
+			m.Notations = append(m.Notations, ":conv localConvErr SpareInt "+nested+".B")
+			m.Features = append(m.Features, "nested-error-source-without-error-result")
+		case k == 0:
 			m.Notations = append(m.Notations, ":map $2.Code() "+f.Name)
-		case 1:
+		case k == 1:
 			m.Notations = append(m.Notations, ":map Risky() "+f.Name)
 		default:
 			m.Notations = append(m.Notations, ":conv localConvErr3 SpareInt "+f.Name)
@@ -970,6 +1027,13 @@ func (g *genState) genMethod(idx int) Method {
 		g.feat(f)
 	}
 	return m
+}
+
+func recvNames(wellFormed bool) []string {
+	if wellFormed {
+		return []string{"r", "self", "x", "e"}
+	}
+	return []string{"r", "self", "x", "e", "dst", "err"}
 }
 
 // literalFor returns an expression of the given type (the tool cannot check literals).
@@ -1101,7 +1165,11 @@ func (m Method) signature() string {
 	res := dt
 	switch {
 	case m.DstName != "" && m.RetErr:
-		res = fmt.Sprintf("(%s %s, err error)", m.DstName, dt)
+		en := "err"
+		if m.DstName == "err" || m.SrcName == "err" {
+			en = "e9" // Go itself forbids two variables of one name in a signature
+		}
+		res = fmt.Sprintf("(%s %s, %s error)", m.DstName, dt, en)
 	case m.DstName != "":
 		res = fmt.Sprintf("(%s %s)", m.DstName, dt)
 	case m.RetErr:
@@ -1224,6 +1292,26 @@ func localConvErr3(i int) (int, error) {
 	return i + 3, nil
 }
 `
+	if opt.SiblingUse && rng.Intn(3) == 0 {
+		// hand-written code of the package that calls a to-be-generated function: undefined while the
+		// tool loads the package (the previous output is hidden), defined once the output exists
+	pick:
+		for _, it := range c.Interfaces {
+			for _, m := range it.Methods {
+				recv := false
+				for _, n := range m.Notations {
+					if strings.HasPrefix(n, ":recv") {
+						recv = true
+					}
+				}
+				if !recv && m.RawSig == "" {
+					helpers += "\n// generatedUser refers to a function the tool generates.\nvar generatedUser = " + m.Name + "\n"
+					g.feat("sibling-refers-to-generated-function")
+					break pick
+				}
+			}
+		}
+	}
 	c.Files["pk/semrt.go"] = SemRuntime
 	c.Files["pk/types.go"] = LocalTypes + helpers + g.types.String()
 	c.Files["pk/setup.go"] = renderSetup(rng, c, opt)
